@@ -97,6 +97,21 @@ func main() {
 
 func harnessOverlay(dirs []string, native bool) (map[string][]byte, error) {
 	ov := map[string][]byte{}
+	// close the directory list under DEPS (harness files of one package may import harness-only packages)
+	seen := map[string]bool{}
+	for _, d := range dirs {
+		seen[d] = true
+	}
+	for i := 0; i < len(dirs); i++ {
+		if b, err := os.ReadFile(filepath.Join(verifDir, "harness", dirs[i], "DEPS")); err == nil {
+			for _, d := range strings.Fields(string(b)) {
+				if !seen[d] {
+					seen[d] = true
+					dirs = append(dirs, d)
+				}
+			}
+		}
+	}
 	for _, d := range dirs {
 		hd := filepath.Join(verifDir, "harness", d)
 		ents, err := os.ReadDir(hd)
@@ -506,8 +521,14 @@ func cmdNative(args []string) int {
 		return 2
 	}
 	rc := 0
+	// gosym native <PROP> <lemma> sweep=kind:43,ext:2 runs the harness for every combination
+	for _, a := range args[1:] {
+		if strings.HasPrefix(a, "sweep=") {
+			os.Setenv("VERIF_SWEEP", strings.TrimPrefix(a, "sweep="))
+		}
+	}
 	for _, l := range lemmas {
-		if l.Property != args[0] || (len(args) > 1 && l.ID != args[1]) {
+		if l.Property != args[0] || (len(args) > 1 && !strings.HasPrefix(args[1], "sweep=") && l.ID != args[1]) {
 			continue
 		}
 		if b, err := os.ReadFile(filepath.Join(verifDir, "harness", l.Pkg, "DEPS")); err == nil {
@@ -523,7 +544,7 @@ func cmdNative(args []string) int {
 		ok, out := runReplay(dir, v)
 		_ = ok
 		status := "PASS"
-		if !strings.Contains(out, "VF-HARNESS-END") && !strings.Contains(out, "VF-ASSUME-FALSE") {
+		if (!strings.Contains(out, "VF-HARNESS-END") && !strings.Contains(out, "VF-ASSUME-FALSE")) || strings.Contains(out, "VF-SWEEP-FAIL") {
 			status = "FAIL"
 			rc = 1
 		}
